@@ -313,19 +313,6 @@ Proof.
     eexists. split; [vm_compute; reflexivity|]. split; [vm_compute; reflexivity|]. split; vm_compute; reflexivity.
 Qed.
 
-(* the schema of a type-variable field is the empty schema, so the field is inside the domain of the soundness theorem
-   whatever the variable is bound to -- even a Flag (whose own schema rejects combined members: C06_flag_refuted) *)
-Definition E_tvf := mkEnv [mkC "G[F]" "G" [mkF "gv" "gv" (TEnum "F") false true None false None true] false false] [] []
-                          [mkE "F" [JInt 1; JInt 2] true].
-Lemma typevar_field_any_binding :
-  env_ok E_tvf = true /\ ty_ok 9 E_tvf false false (TData "G[F]") = true /\ ty_ok 9 E_tvf false false (TEnum "F") = false /\
-  enc_ok 9 E_tvf false false (TData "G[F]") (VObj [("gv", VFlag 3)]) (JObj [("gv", JInt 3)]) = true /\
-  exists s, schema_f E_tvf dl2020 false false 9 (TData "G[F]") = Some s /\ jvalid pm_any [] 50 s (JObj [("gv", JInt 3)]) = true.
-Proof.
-  split; [vm_compute; reflexivity|]. split; [vm_compute; reflexivity|]. split; [vm_compute; reflexivity|].
-  split; [vm_compute; reflexivity|]. eexists. split; vm_compute; reflexivity.
-Qed.
-
 (* `required` of a type-variable field follows the binding: for every class, every such field *)
 Lemma typevar_required_follows_binding : forall (omit: bool) (f: field),
   f_tv f = true -> f_has_default f = false -> f_dnone f = false ->
